@@ -232,6 +232,8 @@ pub fn host_lookup_law(em: &mut Emit) {
         ])) }));
         ctx.add_function("cura", |ftx: &FunctionContext| ftx.ptx.get_variable("a"));
         ctx.add_function("curb", |ftx: &FunctionContext| ftx.ptx.get_variable("b"));
+        // a host function that evaluates its (unevaluated) argument in the scope of the call
+        ctx.add_function("ev", |ftx: &FunctionContext, e: cel_parser::Expression| ftx.resolve(e));
         ctx
     };
     let templates = [
@@ -243,7 +245,8 @@ pub fn host_lookup_law(em: &mut Emit) {
     ];
     for t in templates {
         let with_ident = t.replace('A', "a").replace('B', "b");
-        let with_host = t.replace('A', "cura()").replace('B', "curb()");
+        // every second template evaluates the identifier through the expression-taking function instead
+        let with_host = if t.len() % 2 == 0 { t.replace('A', "cura()").replace('B', "curb()") } else { t.replace('A', "ev(a)").replace('B', "ev(b)") };
         let (s1, s2) = (with_ident.clone(), with_host.clone());
         let law = guarded(move || {
             let ctx = build();
